@@ -935,8 +935,8 @@ func (c *Compiler) linkRecursiveCode(ctx *compileContext) {
 		}
 
 		// extend length to alloc slot for elemIdx + length
-		curTotalLength := uintptr(recursive.TotalLength()) + 3
-		nextTotalLength := uintptr(totalLength) + 3
+		curTotalLength := uintptr(recursive.TotalLength()) + 4
+		nextTotalLength := uintptr(totalLength) + 4
 
 		compiled := recursive.Jmp
 		compiled.Code = code
